@@ -1,6 +1,7 @@
 /-
-Prelude of the Rust-to-Lean translator for the pattern-insertion side (`src/nfa_builder.rs`:
-`NfaBuilder::{new, add, is_registered, child_id}`, translated by tools/nfa2lean.py): the meaning
+Prelude of the Rust-to-Lean translator for the sparse-NFA builder (`src/nfa_builder.rs`:
+`NfaBuilder::{new, add, is_registered, child_id, build_fails, build_fails_leftmost, build_outputs}`,
+translated by tools/nfa2lean.py): the meaning
 given to the std / core items those functions use.  This file is hand-written and is the trusted
 base of the tie (together with the translation rules in the header of tools/nfa2lean.py).
 
@@ -8,8 +9,12 @@ Representation choices
  * integers (`u32`, `usize`, labels `L` = `u8`/`char`, `NonZeroU32`) are `Nat`; `usize` arithmetic
    (`self.len += 1`, the byte-length fold) is unbounded;
  * `Vec<RefCell<NfaBuilderState>>` is `Array NfaBuilderState`: `borrow()` / `borrow_mut()` are plain
-   reads / writes of the element (the four translated functions never hold a `borrow_mut` across
-   another borrow of the same cell); `vec[i]` out of range is `BuildErr.panic` (`Rs.index`);
+   reads / writes of the element (`new` / `add` / `is_registered` / `child_id` never hold a `borrow_mut`
+   across another borrow of the same cell; the fail / output passes do hold a borrow of the queue
+   entry's cell while they touch OTHER cells — the dynamic borrow check is not modelled);
+   `vec[i]` out of range is `BuildErr.panic` (`Rs.index`);
+ * `Vec<u32>` / `&[u32]` (the BFS queue) is `Array Nat`; `edges.values()` / `&edges` iterate the
+   association list in label order;
  * `BTreeMap<L, u32>` is a label-sorted association list (`EdgeMap`), `get` / `insert` below;
  * `BTreeSet<Vec<L>>` is a list of keys (`SetL`); `insert` returns (was-new, set');
  * `Option<(V, NonZeroU32)>` is `Option (V × Nat)`;
@@ -49,6 +54,12 @@ def EdgeMap.insert : EdgeMap → Nat → Nat → EdgeMap
     if c < l then (c, v) :: (l, w) :: r
     else if c = l then (l, v) :: r
     else (l, w) :: EdgeMap.insert r c v
+
+/-- `edges.values()`: the child ids in label order. -/
+def EdgeMap.values (m : EdgeMap) : List Nat := m.map (·.2)
+
+/-- `Vec::with_capacity(n)`: the empty vector (capacity is not observable). -/
+def vecWithCapacity {α : Type} (_n : Nat) : Array α := #[]
 
 /-- `BTreeSet<Vec<L>>` (only membership is observable). -/
 abbrev SetL := List (List Nat)
